@@ -1,5 +1,274 @@
 package main
 
-// doMore extracts the non-CPU facts (memory constants, loop counter widths, regex literals, ...).
+import (
+	"fmt"
+	"go/ast"
+	"go/token"
+	"path/filepath"
+	"sort"
+	"strings"
+)
+
+// doMore extracts the non-CPU facts (memory copy/clear lists, config switch, loop counter widths, regex literals, ...).
 func doMore(repo, outDir string) {
+	doMemory(repo, outDir)
+}
+
+func recvType(fd *ast.FuncDecl) string {
+	if fd.Recv == nil || len(fd.Recv.List) != 1 {
+		return ""
+	}
+	t := fd.Recv.List[0].Type
+	if s, ok := t.(*ast.StarExpr); ok {
+		t = s.X
+	}
+	if id, ok := t.(*ast.Ident); ok {
+		return id.Name
+	}
+	return ""
+}
+
+// fieldOf returns F for an expression of the form recv.F
+func fieldOf(e ast.Expr) (string, bool) {
+	if s, ok := e.(*ast.SelectorExpr); ok {
+		if _, ok := s.X.(*ast.Ident); ok {
+			return s.Sel.Name, true
+		}
+	}
+	return "", false
+}
+
+func leanStrList(xs []string) string {
+	q := []string{}
+	for _, x := range xs {
+		q = append(q, fmt.Sprintf("%q", x))
+	}
+	return "[" + strings.Join(q, ", ") + "]"
+}
+
+func leanPairList(xs [][2]string) string {
+	q := []string{}
+	for _, x := range xs {
+		q = append(q, fmt.Sprintf("(%q, %q)", x[0], x[1]))
+	}
+	return "[" + strings.Join(q, ", ") + "]"
+}
+
+// copyPairs: `copy(r.A, r.B)` and `r.A = r.B` statements of a method, as (dst, src) field pairs
+func copyPairs(fd *ast.FuncDecl) ([][2]string, error) {
+	res := [][2]string{}
+	for _, st := range fd.Body.List {
+		switch v := st.(type) {
+		case *ast.ExprStmt:
+			call, ok := v.X.(*ast.CallExpr)
+			if !ok {
+				return nil, fmt.Errorf("unexpected statement in %s", fd.Name.Name)
+			}
+			if id, ok := call.Fun.(*ast.Ident); ok && id.Name == "copy" && len(call.Args) == 2 {
+				d, ok1 := fieldOf(call.Args[0])
+				s, ok2 := fieldOf(call.Args[1])
+				if !ok1 || !ok2 {
+					return nil, fmt.Errorf("copy with non-field arguments in %s", fd.Name.Name)
+				}
+				res = append(res, [2]string{d, s})
+				continue
+			}
+			// delegation p.mem.TakeSnapshot(): recorded as ("->", method)
+			res = append(res, [2]string{"->", exprString(call.Fun)})
+		case *ast.AssignStmt:
+			if len(v.Lhs) != 1 || len(v.Rhs) != 1 || v.Tok != token.ASSIGN {
+				return nil, fmt.Errorf("unexpected assignment in %s", fd.Name.Name)
+			}
+			d, ok1 := fieldOf(v.Lhs[0])
+			s, ok2 := fieldOf(v.Rhs[0])
+			if !ok1 || !ok2 {
+				return nil, fmt.Errorf("assignment with non-field operands in %s", fd.Name.Name)
+			}
+			res = append(res, [2]string{d, s})
+		default:
+			return nil, fmt.Errorf("unexpected statement %T in %s", st, fd.Name.Name)
+		}
+	}
+	return res, nil
+}
+
+// zeroedFields: fields set to zero by ClearStatistics (`r.F[i] = 0` inside a loop, or `r.F = 0`)
+func zeroedFields(fd *ast.FuncDecl) ([]string, error) {
+	res := []string{}
+	var err error
+	ast.Inspect(fd.Body, func(n ast.Node) bool {
+		as, ok := n.(*ast.AssignStmt)
+		if !ok {
+			return true
+		}
+		if len(as.Lhs) != 1 || len(as.Rhs) != 1 {
+			return true
+		}
+		if v, ok := intLit(as.Rhs[0]); !ok || v != 0 {
+			return true
+		}
+		lhs := as.Lhs[0]
+		if ix, ok := lhs.(*ast.IndexExpr); ok {
+			lhs = ix.X
+		}
+		if f, ok := fieldOf(lhs); ok {
+			res = append(res, f)
+		} else if _, isIdent := lhs.(*ast.Ident); !isIdent {
+			err = fmt.Errorf("unexpected zero assignment in %s", fd.Name.Name)
+		}
+		return true
+	})
+	if len(res) == 0 {
+		// delegation
+		for _, st := range fd.Body.List {
+			if es, ok := st.(*ast.ExprStmt); ok {
+				if call, ok := es.X.(*ast.CallExpr); ok {
+					res = append(res, "->"+exprString(call.Fun))
+				}
+			}
+		}
+	}
+	return res, err
+}
+
+func doMemory(repo, outDir string) {
+	files := parseDir(filepath.Join(repo, "memory"))
+	type key struct{ typ, method string }
+	methods := map[key]*ast.FuncDecl{}
+	for _, f := range files {
+		for _, d := range f.Decls {
+			if fd, ok := d.(*ast.FuncDecl); ok && fd.Body != nil {
+				methods[key{recvType(fd), fd.Name.Name}] = fd
+			}
+		}
+	}
+	types := []string{"LinearMemory", "X16Memory", "NeoGeoRam", "F256RevBMemory", "WrappingMemory"}
+	var b strings.Builder
+	b.WriteString(header)
+	b.WriteString("namespace Verif.Generated\n\n")
+	b.WriteString("/-! `copy(dst, src)` / `dst = src` statements of TakeSnapshot / RestoreSnapshot and the fields zeroed by\n    ClearStatistics, per memory type, as Go field names (`->x` = delegation to x) -/\n\n")
+	okAll := true
+	for _, t := range types {
+		for _, m := range []string{"TakeSnapshot", "RestoreSnapshot"} {
+			fd, ok := methods[key{t, m}]
+			if !ok {
+				fail("memory.snapshot", fmt.Sprintf("%s.%s not found", t, m))
+				okAll = false
+				continue
+			}
+			pairs, err := copyPairs(fd)
+			if err != nil {
+				fail("memory.snapshot", err)
+				okAll = false
+				continue
+			}
+			fmt.Fprintf(&b, "def %s_%s : List (String × String) := %s\n", t, m, leanPairList(pairs))
+		}
+		fd, ok := methods[key{t, "ClearStatistics"}]
+		if !ok {
+			fail("memory.clear", fmt.Sprintf("%s.ClearStatistics not found", t))
+			okAll = false
+			continue
+		}
+		fields, err := zeroedFields(fd)
+		if err != nil {
+			fail("memory.clear", err)
+			okAll = false
+			continue
+		}
+		fmt.Fprintf(&b, "def %s_ClearStatistics : List String := %s\n\n", t, leanStrList(fields))
+	}
+
+	// emuconfig.Config.NewCpu: switch c.MemSpec { case L16: mem = memory.NewLinearMemory(16384) ... }
+	cfiles := parseDir(filepath.Join(repo, "emuconfig"))
+	consts := map[string]string{}
+	for _, f := range cfiles {
+		for _, d := range f.Decls {
+			gd, ok := d.(*ast.GenDecl)
+			if !ok || gd.Tok != token.CONST {
+				continue
+			}
+			for _, sp := range gd.Specs {
+				vs := sp.(*ast.ValueSpec)
+				for i, n := range vs.Names {
+					if i < len(vs.Values) {
+						if bl, ok := vs.Values[i].(*ast.BasicLit); ok && bl.Kind == token.STRING {
+							consts[n.Name] = strings.Trim(bl.Value, "\"")
+						}
+					}
+				}
+			}
+		}
+	}
+	cfns := funcs(cfiles)
+	specs := [][]string{}
+	if fd, ok := cfns["NewCpu"]; ok {
+		ast.Inspect(fd.Body, func(n ast.Node) bool {
+			sw, ok := n.(*ast.SwitchStmt)
+			if !ok {
+				return true
+			}
+			if exprString(sw.Tag) != "c.MemSpec" {
+				return true
+			}
+			for _, cc := range sw.Body.List {
+				clause := cc.(*ast.CaseClause)
+				names := []string{}
+				for _, e := range clause.List {
+					if id, ok := e.(*ast.Ident); ok {
+						if v, ok := consts[id.Name]; ok {
+							names = append(names, v)
+							continue
+						}
+					}
+					names = append(names, "?"+exprString(e))
+				}
+				if clause.List == nil {
+					names = []string{"default"}
+				}
+				if len(clause.Body) != 1 {
+					fail("config.memspec", "case body is not a single statement")
+					okAll = false
+					continue
+				}
+				as, ok := clause.Body[0].(*ast.AssignStmt)
+				if !ok || len(as.Rhs) != 1 {
+					fail("config.memspec", "case body is not an assignment")
+					okAll = false
+					continue
+				}
+				call, ok := as.Rhs[0].(*ast.CallExpr)
+				if !ok {
+					fail("config.memspec", "case body is not a constructor call")
+					okAll = false
+					continue
+				}
+				args := []string{}
+				for _, a := range call.Args {
+					args = append(args, exprString(a))
+				}
+				for _, nm := range names {
+					specs = append(specs, []string{nm, exprString(call.Fun), strings.Join(args, ",")})
+				}
+			}
+			return false
+		})
+	} else {
+		fail("config.memspec", "NewCpu not found")
+		okAll = false
+	}
+	sort.Slice(specs, func(i, j int) bool { return specs[i][0] < specs[j][0] })
+	b.WriteString("/-- `switch c.MemSpec` of emuconfig.Config.NewCpu: (MemSpec, constructor, arguments) -/\n")
+	b.WriteString("def memSpecSwitch : List (String × String × String) := [\n")
+	for i, s := range specs {
+		sep := ","
+		if i == len(specs)-1 {
+			sep = ""
+		}
+		fmt.Fprintf(&b, "  (%q, %q, %q)%s\n", s[0], s[1], s[2], sep)
+	}
+	b.WriteString("]\n\nend Verif.Generated\n")
+	if okAll {
+		writeIfChanged(filepath.Join(outDir, "Memory.lean"), b.String())
+	}
 }
